@@ -173,3 +173,199 @@ Example C07_ex_samples_ok :
   samples_ok ex_env [Some 5] = false /\             (* unnamed slice *)
   samples_ok ex_env [Some 9] = false.               (* embeds itself *)
 Proof. repeat split; vm_compute; reflexivity. Qed.
+
+(* ======================================================================
+   The converse: Prepare accepts EXACTLY the well-typed statements.
+   [well_typed] (Proofs/WellTyped.v) is a declarative reading of the property
+   text, clause by clause, on the parsed statement [es] and the information
+   [infos] derived from the samples; no builder state is involved:
+   - per expression ([expr_ok]): $T.m - T has a sample and m is a db tag of
+     the struct T / T is a map; $S[:] - S is a slice sample; the asterisk INSERT -
+     every source is $T.* with T a struct with tags, or $T.m;
+     "(c1, ..) VALUES" - the sources are $T.* (struct with tags, or at most
+     ONE map) or $T.m, and every listed column has exactly one provider
+     ([providers]: $T.* adds to the providers of each tag of T, $T.m replaces
+     the providers of m) or none and then there is a map; "(c..) VALUES (v..)"
+     - equal counts, every $T.m typed; outputs - generated columns: every
+     destination is &T.* (struct with tags) or &T.m; explicit columns into
+     one &T.*: every column is a member of T (so T may be a map); explicit
+     columns pairwise: equal counts, every &T.m typed;
+   - every sample name occurs among the type names of the statement;
+   - the destination identifiers "T.tag" / "M.key" of all output expressions
+     ([dest_ids], in textual order, &T.* = all tags sorted) are distinct.
+   ====================================================================== *)
+From SQLair.Proofs Require Import WellTyped WellTypedProofs.
+
+(* for accepted samples, as booleans *)
+Theorem C07_prepare_iff_bool :
+  forall env samples infos es,
+    generate_arg_info env samples [] = BOk infos ->
+    is_ok (bind_types env es samples) = well_typed env infos es.
+Proof. exact prepare_iff_bool. Qed.
+Print Assumptions C07_prepare_iff_bool.
+
+(* the same on the builder: binding all expressions, then checkAllArgsUsed *)
+Theorem C07_iff :
+  forall env samples infos es,
+    generate_arg_info env samples [] = BOk infos ->
+    match bind_exprs env {| b_infos := infos; b_used := []; b_outused := []; b_exprs := [] |} es with
+    | BOk b => forallb (fun '(name, _) => existsb (str_eqb name) (b_used b)) (b_infos b)
+    | BErr _ => false
+    end = well_typed env infos es.
+Proof. exact WellTypedProofs.C07_iff. Qed.
+Print Assumptions C07_iff.
+
+Theorem C07_prepare_iff :
+  forall env es samples,
+    is_ok (bind_types env es samples) = true <->
+    exists infos, generate_arg_info env samples [] = BOk infos /\ well_typed env infos es = true.
+Proof. exact prepare_iff. Qed.
+Print Assumptions C07_prepare_iff.
+
+(* together with C07_samples_accepted_iff *)
+Theorem C07_prepare_iff_samples :
+  forall env es samples,
+    is_ok (bind_types env es samples) =
+    samples_ok env samples &&
+    match generate_arg_info env samples [] with
+    | BOk infos => well_typed env infos es
+    | BErr _ => false
+    end.
+Proof. exact prepare_iff_samples. Qed.
+Print Assumptions C07_prepare_iff_samples.
+
+(* one expression: it is accepted iff it is locally well typed and its
+   destination identifiers are not yet taken and pairwise distinct; the
+   acceptance does not depend on b_used; afterwards the identifiers have been
+   added to b_outused and the type names to b_used *)
+Theorem C07_bind_expr_iff :
+  forall env b e,
+    infos_inv env (b_infos b) ->
+    is_ok (bind_expr env b e) =
+    expr_ok (b_infos b) e && fresh_all (expr_dest_ids (b_infos b) e) (b_outused b) /\
+    forall b1, bind_expr env b e = BOk b1 ->
+      b_infos b1 = b_infos b /\
+      b_outused b1 = List.app (rev (expr_dest_ids (b_infos b) e)) (b_outused b) /\
+      forall n, In n (b_used b1) <-> In n (type_names e) \/ In n (b_used b).
+Proof.
+  intros env b e INV. pose proof (bind_expr_spec env b e INV) as S. unfold spec in S.
+  destruct (bind_expr env b e) as [b1|er]; cbn [is_ok].
+  - destruct S as [O [F ST]]. rewrite O, F. split; [reflexivity|].
+    intros b2 E. injection E as <-. exact ST.
+  - rewrite S. split; [reflexivity|]. intros b1 E. discriminate E.
+Qed.
+Print Assumptions C07_bind_expr_iff.
+
+(* ---------------------------------------------- examples: well_typed -- *)
+
+Definition infos_of (samples : list (option tid)) : arginfos :=
+  ok_or [] (generate_arg_info ex_env samples []).
+Definition wt (es : list expr) (samples : list (option tid)) : bool :=
+  well_typed ex_env (infos_of samples) es.
+Definition prepares (es : list expr) (samples : list (option tid)) : bool :=
+  is_ok (bind_types ex_env es samples).
+Definition col (x : string) : column := BasicCol [] (s x).
+Definition ex_cols (cols : list column) (sources : list macc) : list expr :=
+  [Bypass (s "INSERT INTO t "); ColumnsIns (s "...") cols sources].
+
+(* accepted *)
+Example C07_wt_select :
+  wt ex_select ex_select_samples = true /\ prepares ex_select ex_select_samples = true /\
+  dest_ids ex_env (infos_of ex_select_samples) ex_select = [s "Person.id"; s "Person.name"].
+Proof. repeat split; vm_compute; reflexivity. Qed.
+Example C07_wt_insert : wt ex_insert ex_insert_samples = true /\ prepares ex_insert ex_insert_samples = true.
+Proof. split; vm_compute; reflexivity. Qed.
+
+(* a type named in the statement has no sample: the SliceIn clause fails *)
+Example C07_wt_unknown_type :
+  wt ex_select [Some 2; Some 3] = false /\ prepares ex_select [Some 2; Some 3] = false /\
+  expr_ok (infos_of [Some 2; Some 3]) (SliceIn (s "$Ints[:]") (s "Ints")) = false.
+Proof. repeat split; vm_compute; reflexivity. Qed.
+
+(* a sample that the statement does not name: only the global clause fails *)
+Example C07_wt_unused_sample :
+  wt ex_insert [Some 2; Some 3] = false /\ prepares ex_insert [Some 2; Some 3] = false /\
+  forallb (expr_ok (infos_of [Some 2; Some 3])) ex_insert = true /\
+  all_samples_named (infos_of [Some 2; Some 3]) ex_insert = false.
+Proof. repeat split; vm_compute; reflexivity. Qed.
+
+(* matching is case sensitive *)
+Example C07_wt_case_sensitive :
+  wt [MemberIn (s "$person.id") (ma "person" "id")] [Some 2] = false /\
+  prepares [MemberIn (s "$person.id") (ma "person" "id")] [Some 2] = false.
+Proof. split; vm_compute; reflexivity. Qed.
+
+(* a member that is not a db tag of the struct *)
+Example C07_wt_missing_tag :
+  wt (ex_out [] [ma "Person" "address"]) [Some 2] = false /\
+  prepares (ex_out [] [ma "Person" "address"]) [Some 2] = false /\
+  has_member (infos_of [Some 2]) (ma "Person" "address") = false /\
+  has_member (infos_of [Some 2]) (ma "Person" "name") = true.
+Proof. repeat split; vm_compute; reflexivity. Qed.
+
+(* slice syntax on a struct; member syntax on a slice *)
+Example C07_wt_slice_on_struct :
+  wt [SliceIn (s "$Person[:]") (s "Person")] [Some 2] = false /\
+  prepares [SliceIn (s "$Person[:]") (s "Person")] [Some 2] = false /\
+  wt [MemberIn (s "$Ints.x") (ma "Ints" "x")] [Some 6] = false /\
+  prepares [MemberIn (s "$Ints.x") (ma "Ints" "x")] [Some 6] = false.
+Proof. repeat split; vm_compute; reflexivity. Qed.
+
+(* &M.* with a map: only with explicit columns *)
+Example C07_wt_map_asterisk :
+  wt (ex_out [] [ma "M" "*"]) [Some 3] = false /\ prepares (ex_out [] [ma "M" "*"]) [Some 3] = false /\
+  wt (ex_out [col "a"; col "b"] [ma "M" "*"]) [Some 3] = true /\
+  prepares (ex_out [col "a"; col "b"] [ma "M" "*"]) [Some 3] = true /\
+  dest_ids ex_env (infos_of [Some 3]) (ex_out [col "a"; col "b"] [ma "M" "*"]) = [s "M.a"; s "M.b"].
+Proof. repeat split; vm_compute; reflexivity. Qed.
+
+(* $M.* in an asterisk INSERT is not allowed; in an INSERT with columns it is *)
+Example C07_wt_map_in_insert :
+  wt [AsteriskIns (s "...") [ma "M" "*"]] [Some 3] = false /\
+  prepares [AsteriskIns (s "...") [ma "M" "*"]] [Some 3] = false /\
+  wt (ex_cols [col "id"; col "zip"] [ma "Person" "*"; ma "M" "*"]) [Some 2; Some 3] = true /\
+  prepares (ex_cols [col "id"; col "zip"] [ma "Person" "*"; ma "M" "*"]) [Some 2; Some 3] = true.
+Proof. repeat split; vm_compute; reflexivity. Qed.
+
+(* counts *)
+Example C07_wt_counts :
+  wt (ex_out [col "a"; col "b"] [ma "Person" "id"]) [Some 2] = false /\
+  prepares (ex_out [col "a"; col "b"] [ma "Person" "id"]) [Some 2] = false /\
+  wt (ex_out [col "a"; col "b"] [ma "Person" "id"; ma "Person" "name"]) [Some 2] = true /\
+  prepares (ex_out [col "a"; col "b"] [ma "Person" "id"; ma "Person" "name"]) [Some 2] = true /\
+  wt [BasicIns (s "...") [col "a"; col "b"] [VMem (ma "Person" "id")]] [Some 2] = false /\
+  prepares [BasicIns (s "...") [col "a"; col "b"] [VMem (ma "Person" "id")]] [Some 2] = false.
+Proof. repeat split; vm_compute; reflexivity. Qed.
+
+(* the same destination twice: every expression is fine on its own, the
+   global clause fails; also across two output expressions *)
+Example C07_wt_destination_twice :
+  wt (ex_out [] [ma "Person" "id"; ma "Person" "*"]) [Some 2] = false /\
+  prepares (ex_out [] [ma "Person" "id"; ma "Person" "*"]) [Some 2] = false /\
+  forallb (expr_ok (infos_of [Some 2])) (ex_out [] [ma "Person" "id"; ma "Person" "*"]) = true /\
+  dest_ids ex_env (infos_of [Some 2]) (ex_out [] [ma "Person" "id"; ma "Person" "*"])
+    = [s "Person.id"; s "Person.id"; s "Person.name"] /\
+  wt (List.app (ex_out [] [ma "Person" "id"]) (ex_out [col "id"] [ma "Person" "*"])) [Some 2] = false /\
+  prepares (List.app (ex_out [] [ma "Person" "id"]) (ex_out [col "id"] [ma "Person" "*"])) [Some 2] = false.
+Proof. repeat split; vm_compute; reflexivity. Qed.
+
+(* "(c, ..) VALUES (...)": exactly one provider per listed column.  $T.*
+   adds a provider for every tag of T; a later $T.m REPLACES the providers
+   of column m; a map takes the columns nobody provides *)
+Example C07_wt_providers :
+  (* id provided twice *)
+  wt (ex_cols [col "id"] [ma "Person" "id"; ma "Person" "*"]) [Some 2] = false /\
+  prepares (ex_cols [col "id"] [ma "Person" "id"; ma "Person" "*"]) [Some 2] = false /\
+  providers (infos_of [Some 2]) (s "id") [ma "Person" "id"; ma "Person" "*"]
+    = [ma "Person" "id"; ma "Person" "*"] /\
+  (* the member source replaces what $Person.* provided *)
+  wt (ex_cols [col "id"] [ma "Person" "*"; ma "Person" "id"]) [Some 2] = true /\
+  prepares (ex_cols [col "id"] [ma "Person" "*"; ma "Person" "id"]) [Some 2] = true /\
+  providers (infos_of [Some 2]) (s "id") [ma "Person" "*"; ma "Person" "id"] = [ma "Person" "id"] /\
+  (* no provider and no map *)
+  wt (ex_cols [col "id"; col "zip"] [ma "Person" "*"]) [Some 2] = false /\
+  prepares (ex_cols [col "id"; col "zip"] [ma "Person" "*"]) [Some 2] = false /\
+  (* two maps *)
+  wt (ex_cols [col "a"] [ma "M" "*"; ma "M" "*"]) [Some 3] = false /\
+  prepares (ex_cols [col "a"] [ma "M" "*"; ma "M" "*"]) [Some 3] = false.
+Proof. repeat split; vm_compute; reflexivity. Qed.
